@@ -17,16 +17,19 @@ import lean  # noqa: E402
 VERIF = core.VERIF
 
 
+EVDIR = os.environ.get("VERIF_EVIDENCE_DIR") or os.path.join(VERIF, "evidence")
+
+
 def write_evidence(prop, tier, seed, cov, assumptions, wall, nviol):
-    os.makedirs(os.path.join(VERIF, "evidence"), exist_ok=True)
+    os.makedirs(EVDIR, exist_ok=True)
     ev = {
         "property_id": prop, "tier": tier, "seed": seed, "level": "proof",
         "coverage": cov, "assumptions": assumptions, "wall_s": round(wall, 2), "violations": nviol,
     }
-    tmp = os.path.join(VERIF, "evidence", ".%s.json.%d" % (prop, os.getpid()))
+    tmp = os.path.join(EVDIR, ".%s.json.%d" % (prop, os.getpid()))
     with open(tmp, "w") as f:
         json.dump(core.jsonable(ev), f, indent=1, default=core.jdefault)
-    os.replace(tmp, os.path.join(VERIF, "evidence", prop + ".json"))
+    os.replace(tmp, os.path.join(EVDIR, prop + ".json"))
 
 
 def write_replay(prop, seed, n, payload):
